@@ -36,6 +36,7 @@ ASSUMPTIONS = ["asynchronous exceptions between hy-repr's own bookkeeping lines 
 
 _S = {}
 STEP_CAP = 200000
+BOX_CALL_CAP = 20000  # largest observed on the unchanged tree: < 100
 WATCHDOG_CPU_S = 20
 
 
@@ -55,6 +56,7 @@ class _Ctx:
     repr = None  # the hy-repr function under which Box printers recurse
     register = None
     kept = None  # objects of earlier calls (system under test) / their specs (pristine instance)
+    box_calls = 0  # Box printer invocations in the current top-level call
     kept_is_spec = False  # which of the two CTX.kept holds (a kept *object* may itself be a Python dict)
 
 
@@ -80,6 +82,11 @@ PLACEHOLDER = {0: None, 1: "<BOX>", 2: None}
 def _box_printer(x):
     p = x.plan
     parts = []
+    # deterministic step cap that does not depend on tracing (CPython un-sets the trace function when calling it
+    # fails, e.g. at the recursion limit): exponential blow-up needs a catching printer, i.e. this function
+    CTX.box_calls += 1
+    if CTX.box_calls > BOX_CALL_CAP:
+        raise StepCapExceeded("step cap: %d Box printer calls in one hy.repr call" % BOX_CALL_CAP)
     if p.get("register"):
         # a printer that (re-)registers a helper printer on first use
         CTX.register(_S["boxes"][0], _box_printer, PLACEHOLDER[0])
@@ -609,6 +616,7 @@ def _call(fn, hy_repr_code, spec, k, exc, register=None, kept=None, keep_into=No
     CTX.register = register
     CTX.kept = kept
     CTX.kept_is_spec = kept_is_spec
+    CTX.box_calls = 0
     value = build(spec)
     if keep_into is not None:
         keep_into[0] = value
@@ -625,7 +633,7 @@ def _call(fn, hy_repr_code, spec, k, exc, register=None, kept=None, keep_into=No
     # has been raised; a catching printer may continue from there): CPU-time watchdog, far above any call on a
     # tree where printing terminates (milliseconds), so it never decides an outcome there
     old = signal.signal(signal.SIGVTALRM, _watchdog)
-    signal.setitimer(signal.ITIMER_VIRTUAL, WATCHDOG_CPU_S)
+    signal.setitimer(signal.ITIMER_VIRTUAL, WATCHDOG_CPU_S, 0.5)  # repeats: a handler call at the recursion limit fails
     try:
         if spec["t"] == "deep":
             text = fn(value)  # untraced: the fault here is the RecursionError itself
